@@ -182,6 +182,9 @@ def g4(F, rep):
     rep.add("G4", "zip:extra-field-skipped", len(sk) == 1 and "Current" in sk[0] and "extra_field_length" in sk[0], pw, "seek(%s)" % sk)
     st_ = _var_def(pz, "deflate_start_position")
     rep.add("G4", "zip:payload-at-stream-position", len(st_) == 1 and "stream_position(var(binary_reader))" in st_[0], pw, "deflate_start_position := %s" % st_)
+    zd = [flow.describe(pz, t["args"][0], names=True) for bb, t in pz.calls() if strip_generics(callee_def(t)).endswith("decompress_deflate_stream")]
+    rep.add("G4", "zip:payload-to-end-of-input", len(zd) >= 1 and all(re.match(r"^index\(var\(contents\), RangeFrom\{var\(deflate_start_position\)\}\)$", d) for d in zd), pw,
+            "the decoder gets everything from the payload start on (the local header's size fields are 0 for streamed entries): %s" % zd)
     # ---- IDAT ----------------------------------------------------------------------------------------
     rs = _var_def(b, "real_start")
     rep.add("G4", "png:look-back-4", len(rs) == 1 and re.match(r"^Sub\(var\(index\), K4\)(\.0)?$", rs[0]) is not None, "", "real_start := %s" % rs)
@@ -191,6 +194,16 @@ def g4(F, rep):
     rep.add("G4", "png:type-at+4..+8", len(ct) == 1 and re.match(r"^index\(var\(png_idat_stream\), Range\{Add\(var\(pos\), K4\)(\.0)?, Add\(var\(pos\), K8\)(\.0)?\}\)$", ct[0]) is not None, iw, "chunk_type := %s" % ct)
     ck = _var_def(pi, "chunk")
     rep.add("G4", "png:data-at+8", len(ck) == 1 and re.match(r"^index\(var\(png_idat_stream\), Range\{Add\(var\(pos\), K8\)(\.0)?, Add\(Add\(var\(pos\), var\(chunk_len\)\)(\.0)?, K8\)(\.0)?\}\)$", ck[0]) is not None, iw, "chunk := %s" % ck)
+    # the zlib stream is the concatenation of the *whole* payload of every chunk; header and Adler-32 are split off the
+    # concatenation (chunk boundaries may fall anywhere, also inside the 2-byte header or the 4-byte checksum)
+    ex = [flow.describe(pi, t["args"][1], names=True) for bb, t in pi.calls() if strip_generics(callee_def(t)).endswith("extend_from_slice")
+          and flow.describe(pi, t["args"][0], names=True) == "var(deflate_stream)"]
+    rep.add("G4", "png:whole-chunk-appended", ex == ["var(chunk)"], iw, "deflate_stream.extend_from_slice(%s)" % ex)
+    zh = _var_def(pi, "idat_zlib_header")
+    rep.add("G4", "png:zlib-header-from-concatenation", len(zh) == 1 and re.match(r"^array\{index\(var\(deflate_stream\), K0\), index\(var\(deflate_stream\), K1\)\}$", zh[0]) is not None, iw, "idat_zlib_header := %s" % zh)
+    body = [flow.describe(pi, t["args"][0], names=True) for bb, t in pi.calls() if strip_generics(callee_def(t)).endswith("to_vec")]
+    rep.add("G4", "png:stream=concatenation[2..len-4]", body == ["index(var(deflate_stream), Range{K2, Sub(len(var(deflate_stream)), K4).0})"] or
+            body == ["index(var(deflate_stream), Range{K2, Sub(len(var(deflate_stream)), K4)})"], iw, "returned stream := %s" % body)
     cl = _var_def(pi, "chunk_len")
     ok_len = len(cl) == 1 and "from_be_bytes" in cl[0]
     rep.add("G4", "png:length-big-endian", ok_len, iw, "chunk_len := %s" % [x[:120] for x in cl])
